@@ -1,5 +1,6 @@
 import Dmn.Model.ModelBuild
 import Dmn.Lemmas.DecisionTable
+import Dmn.Lemmas.ReqDfsCost
 
 /-!
 # Helper lemmas about the builder / traversal model (used by `Props/C12.lean`)
@@ -481,12 +482,56 @@ theorem eval_of_chain (d : Defs) :
             intro r hr
             exact (ih r (hall r (hsub r (by simp [Service.required, hr]))) f' (by omega)).1
 
+/-- `reqChain` is the generic chain-length check on the map `reqsOf d`. -/
+theorem reqChain_eq (d : Defs) : ∀ (b id : Nat), reqChain d b id = ReqDfs.chainOk (reqsOf d) b id := by
+  intro b
+  induction b with
+  | zero =>
+    intro id
+    unfold reqChain ReqDfs.chainOk
+    cases reqsOf d id <;> rfl
+  | succ b ih =>
+    intro id
+    rw [reqChain, ReqDfs.chainOk]
+    cases reqsOf d id with
+    | none => rfl
+    | some rs =>
+      simp only
+      congr 1
+      funext r
+      exact ih r
+
+theorem reqsOf_key (d : Defs) (x : Nat) (h : reqsOf d x ≠ none) : x ∈ allIds d := by
+  unfold reqsOf at h
+  by_cases hin : x ∈ allIds d
+  · exact hin
+  · simp [hin] at h
+
+/-- A list of different keys is no longer than `requirements.len()`. -/
+theorem nodeCount_bound (d : Defs) (l : List Nat) (hnd : l.Nodup) (hk : ∀ x ∈ l, x ∈ allIds d) :
+    l.length ≤ nodeCount d := by
+  unfold nodeCount
+  apply hnd.length_le_of_subset
+  intro x hx
+  exact List.mem_eraseDups.mpr (hk x hx)
+
+/-- **The repaired `check_requirements` (depth-first search, ba4278d) gives the answer of the check it
+replaced** (chain length against the number of elements), for every definitions value. -/
+theorem reqCheck_eq_chains (d : Defs) : reqCheck d = reqCheckChains d := by
+  unfold reqCheck reqCheckChains
+  rw [ReqDfs.dfsCheck_eq (reqsOf d) (allIds d) (reqsOf_key d) (nodeCount d)
+    (fun l hnd hk => nodeCount_bound d l hnd (fun x hx => reqsOf_key d x (hk x hx)))]
+  congr 1
+  funext id
+  exact (reqChain_eq d (nodeCount d) id).symm
+
 /-- After `check_requirements`, every identifier passes the chain check with the full budget
 (identifiers without an entry pass trivially). -/
 theorem reqChain_of_check (d : Defs) (hc : reqCheck d = true) (id : Nat) :
     reqChain d (nodeCount d) id = true := by
+  rw [reqCheck_eq_chains] at hc
   by_cases hin : id ∈ allIds d
-  · simp only [reqCheck, List.all_eq_true] at hc
+  · simp only [reqCheckChains, List.all_eq_true] at hc
     exact hc id hin
   · unfold reqChain
     simp [reqsOf, hin]
@@ -519,7 +564,8 @@ theorem reqCheck_cycle (d : Defs) (C : Nat → Prop) (hC : ReqCycle d C) (id : N
     by_cases h : id ∈ allIds d
     · exact h
     · simp [h] at hrs
-  simp only [reqCheck]
+  rw [reqCheck_eq_chains]
+  simp only [reqCheckChains]
   rw [List.all_eq_false]
   exact ⟨id, hin, by simp [reqChain_cycle d C hC _ id hid]⟩
 
